@@ -106,15 +106,52 @@ def _verdict(prop: str, repo: Repo, root: str) -> Counter:
     return Counter((o.rule, o.file, o.qualname) for o in ck.obs if o.status == "violated"), len(ck.obs)
 
 
-def run_alpha(props: List[str], root: str) -> int:
+def reformat_only(src: str) -> Tuple[str, int]:
+    """Re-print the module from its syntax tree: comments, blank lines, line breaks and line numbers change, nothing else."""
+    return ast.unparse(ast.parse(src)), 1
+
+
+def reverse_keywords(src: str) -> Tuple[str, int]:
+    """Reverse the order of the named keyword arguments of every call (a `**mapping` stays last): same bindings, different spelling order."""
+    tree = ast.parse(src)
+    k = 0
+    for n in ast.walk(tree):
+        if isinstance(n, ast.Call) and len([x for x in n.keywords if x.arg]) > 1:
+            named = [x for x in n.keywords if x.arg]
+            rest = [x for x in n.keywords if not x.arg]
+            # keep relative position of **mappings at the end only when they already are at the end
+            if n.keywords[: len(named)] == named:
+                n.keywords = list(reversed(named)) + rest
+                k += 1
+    return ast.unparse(tree), k
+
+
+def run_alpha(props: List[str], root: str, evidence: bool = False) -> int:
     worst = 0
     for opaque in (False, True):
         worst = max(worst, _run_alpha_mode(props, root, opaque))
+    worst = max(worst, _run_alpha_mode(props, root, False, transform=reformat_only, mode="re-printed from the syntax tree (no comments, other line numbers)"))
+    worst = max(worst, _run_alpha_mode(props, root, False, transform=reverse_keywords, mode="keyword arguments of every call in reverse order"))
+    if evidence:
+        import json
+        from .report import VERIF
+        for p in props:
+            evp = os.path.join(VERIF, "evidence", f"{p}.json")
+            if os.path.exists(evp):
+                with open(evp) as fh:
+                    ev = json.load(fh)
+                ev["coverage"].setdefault("self_validation", {})["alpha_renaming"] = {
+                    "modes": ["suffix _rn", "opaque zq<i>", "re-printed source", "reversed keyword arguments"], "verdict": "same verdict and obligation count on the renamed tree" if worst == 0 else "FAILED",
+                    "what": "every local variable of every function of the package renamed consistently in memory; a changed verdict is a checker bug"}
+                with open(evp, "w") as fh:
+                    json.dump(ev, fh, indent=1)
+    if worst:
+        print(f"ANALYSIS-ERROR property={','.join(props)}: alpha-renaming self-test failed — checker bug, not a violation")
     return worst
 
 
-def _run_alpha_mode(props: List[str], root: str, opaque: bool) -> int:
-    mode = "opaque names zq<i>" if opaque else f"suffix {SUFFIX}"
+def _run_alpha_mode(props: List[str], root: str, opaque: bool, transform=None, mode: str = "") -> int:
+    mode = mode or ("opaque names zq<i>" if opaque else f"suffix {SUFFIX}")
     overrides: Dict[str, str] = {}
     renamed = 0
     base_repo = Repo(root)
@@ -122,13 +159,13 @@ def _run_alpha_mode(props: List[str], root: str, opaque: bool) -> int:
         path = os.path.join(root, m.rel)
         src = open(path).read()
         try:
-            new, k = alpha_rename(src, opaque)
+            new, k = transform(src) if transform is not None else alpha_rename(src, opaque)
         except SyntaxError:
             continue
         if k:
             overrides[m.rel] = new
             renamed += k
-    print(f"alpha-rename ({mode}): {renamed} local variables renamed in {len(overrides)} modules")
+    print(f"alpha-rename ({mode}): {renamed} sites rewritten in {len(overrides)} modules")
     worst = 0
     for p in props:
         try:
